@@ -86,6 +86,22 @@ func traceRoot(v ssa.Value, fn *ssa.Function, depth int) root {
 		return traceRoot(x.X, fn, depth+1)
 	case *ssa.TypeAssert:
 		return traceRoot(x.X, fn, depth+1)
+	case *ssa.Phi:
+		// a value chosen among several (one of three tables, say): a shared root among the choices is the root
+		best := root{param: -1}
+		for _, e := range x.Edges {
+			if e == v {
+				continue
+			}
+			r := traceRoot(e, fn, depth+10)
+			if r.global != "" {
+				return r
+			}
+			if r.param >= 0 && best.param < 0 {
+				best = r
+			}
+		}
+		return best
 	case *ssa.Extract:
 		if ta, ok := x.Tuple.(*ssa.TypeAssert); ok {
 			return traceRoot(ta.X, fn, depth+1)
@@ -172,6 +188,18 @@ func main() {
 					}
 				case ssa.CallInstruction:
 					cc := x.Common()
+					// the builtins that write through their first argument
+					if b, ok := cc.Value.(*ssa.Builtin); ok && len(cc.Args) > 0 {
+						switch b.Name() {
+						case "delete", "copy", "clear":
+							r := traceRoot(cc.Args[0], f, 0)
+							if r.global != "" {
+								e.GlobalWrites[r.global] = true
+							} else if r.param >= 0 {
+								e.ParamWrites[r.param] = true
+							}
+						}
+					}
 					if callee := cc.StaticCallee(); inPkg(callee) {
 						var args []root
 						for _, a := range cc.Args {
